@@ -33,3 +33,10 @@ Definition ex_orphan : graph :=
                   mk_node 3 [kEND] [kEND] [];
                   mk_node 9 [] [] [] ];
      g_mode := Dag; g_eager := false; g_max := 0 |}.
+
+(* the same shape as a Workflow (eager mode) *)
+Definition ex_wf : graph :=
+  {| g_nodes := g_nodes ex_dag; g_mode := Dag; g_eager := true; g_max := 0 |}.
+
+Definition sched_lastE : nat -> list key -> nat := fun _ ks => Nat.pred (List.length ks).
+Definition ex_rank (k : key) : nat := if N.eqb k kEND then 100%nat else N.to_nat k.
